@@ -174,9 +174,24 @@ func transition(cur ConnState, ev fsmEvent) (ConnState, bool) {
 	return cur, false
 }
 
+// closedStateWord is stored into state once evClose has been processed. It is NOT a ConnState:
+// State() reports it as NotConnectedState, and — because it equals none of the three values the
+// synchronous commits CAS from — CommitConnected/CommitSelected/CommitSelectLost can no longer
+// succeed. Without it the run-owned closed latch only stopped QUEUED events: a transport whose Start
+// was still in flight when Close ran (a passive Accept handing out a connection, an active dial
+// completing) could CAS NotConnected -> NotSelected AFTER evClose was processed, and since the
+// latched supervisor ignores the evTCPUp that follows, State() stayed NotSelected/Selected after
+// Close returned, until the next Open.
+const closedStateWord = ^uint32(0)
+
 // State returns the current logical E37 state via a lock-free atomic read.
 func (s *supervisor) State() ConnState {
-	return ConnState(s.state.Load())
+	v := s.state.Load()
+	if v == closedStateWord {
+		return NotConnectedState
+	}
+
+	return ConnState(v)
 }
 
 // CommitConnected performs the synchronous TCP-up commit (symmetric with CommitSelected / §7.D):
@@ -328,6 +343,9 @@ func (s *supervisor) step(ev fsmEvent) {
 	if ev == evClose {
 		// Latch closed (I2) BEFORE teardown: no event queued behind this evClose may move state again.
 		s.closed = true
+		// Make the latch visible to the lock-free synchronous commits too (see closedStateWord): from
+		// here on no commit CAS can move state, so State() stays NotConnected until the next Open.
+		s.state.Store(closedStateWord)
 		if e := s.closeEpoch.Load(); e != nil {
 			e.teardown(s.resolveCloseTimeout())
 		}
